@@ -260,6 +260,9 @@ CODE_LEVEL = {
             "the C text of Avtp_GetField/SetField on a NULL PDU or an out-of-range identifier: 0 / no effect, no memory access"),
     "C14": (["O1722.Refine.Props"], ["O1722.Refine.C14_code"],
             "the C text of Avtp_GetField/SetField with the little- and the big-endian form of Byteorder.h: same value, same bytes"),
+    "C09": (["O1722.Refine.PropsVss"], ["O1722.Refine.Avtp_Vss_Pad_refines", "O1722.Refine.C09_code"],
+            "the C text of Avtp_Vss_Pad (with Avtp_Vss_SetField, Avtp_SetField and the regenerated table) = Model.vssPad, hence "
+            "length = ceil(len/4), pad count, exactly the pad bytes zeroed, nothing else changed"),
     "C03": (["O1722.Refine.Props"], ["O1722.Refine.C01_code", "O1722.Refine.C02_code"],
             "every access of the C text of Avtp_GetField/SetField lies in a quadlet the field occupies"),
     "C15": (["O1722.Refine.Props"], ["O1722.Refine.C01_code", "O1722.Refine.C02_code"],
